@@ -171,6 +171,17 @@ def run_one(chk, sseed):
         for repo in w.repos:
             if repo["url"] in w.cfgs and not big or repo is not w.repos[0]:
                 plans[repo["url"]], _ = scenario.gen_plan(rng, rng.choice(["none", "transient"]), repo, w.cfgs[repo["url"]], stores[repo["url"]])
+        # a transfer task that ends cancelled (a cancellation leaking out of the transport) in a stage with more tasks than the
+        # window: the window must still be refilled and every other queued transfer started (own PRNG: older worlds unchanged)
+        r3 = random.Random(sseed + "-cancel")
+        cancelled = None
+        if big and r3.random() < 0.7:
+            url = w.repos[0]["url"]
+            pool = sorted(k for k in stores[url] if k.startswith("pool/") or "/pool/" in k)
+            cancelled = pool[r3.randrange(min(len(pool), 100))] if r3.random() < 0.7 else r3.choice(pool)
+            plans.setdefault(url, [])
+            plans[url] = list(plans[url]) + [[cancelled, 0, "cancel"]]
+            chk.count("worlds_with_a_cancelled_transfer_task_and_more_than_128_tasks")
         if dead_release:
             dead = rng.choice(w.repos[:2] if not big else w.repos[1:2])
             plans[dead["url"]] = [[k, "*", "404"] for k in stores[dead["url"]] if k.rsplit("/", 1)[-1] in ("InRelease", "Release", "Release.gpg")]
@@ -190,9 +201,15 @@ def run_one(chk, sseed):
             res = run_e2e.execute(w.sb, w.repos, stores, plans, chooser, pre_run=pre, budget=60000)
         finally:
             obs.uninstall()
-        replay = {"scenario_seed": sseed, "nthreads": nthreads, "repos": nrepos, "schedule": kind, "big": big, "dead_release": dead_release}
+        replay = {"scenario_seed": sseed, "nthreads": nthreads, "repos": nrepos, "schedule": kind, "big": big, "dead_release": dead_release, "cancelled": cancelled}
         if isinstance(res.exception, vloop.Deadlock):
             chk.violation("deadlock", replay, f"no runnable task, no timer, no pending response: {res.exception}")
+        if res.exit == "exception":
+            # the run was torn down in the middle of a stage: what was still queued is never started
+            asked = set(res.net.log)
+            never = sorted(f"{u}/{k}" for u in stores for k in stores[u] if (k.startswith("pool/") or "/pool/" in k) and f"{u}/{k}" not in asked)
+            chk.violation("queued-transfer-never-started", replay,
+                          f"run aborted by {type(res.exception).__name__}: {res.exception}; {len(never)} pool files of the upstream were never requested, e.g. {never[:2]}")
         if res.net.max_inflight > nthreads:
             chk.violation("inflight-exceeds-nthreads", replay, f"{res.net.max_inflight} transfers in flight with nthreads={nthreads}")
         if obs.max_active > nthreads:
